@@ -621,6 +621,9 @@ pub fn run(ctx: &mut Ctx) {
         },
     );
 
+    if crate::util::violated(ctx) {
+        return;
+    }
     let fresh_cases = tier.pick(8, 4 * nprog as u32);
     let per_child = tier.pick(6usize, 40usize);
     let prop = ctx.prop().to_string();
